@@ -28,3 +28,15 @@ CLAIMED = {
              "under C26. Divisor exponents 4..18 (k = 18 does not finish), payloads longer than 256 bytes, snap decompression and the ABI decoding into num_bigint are outside the claim.",
         technique="Kani/CBMC symbolic execution of the real report framing decoder and of the report-to-price conversion with the big-integer division specified", design="C28"),
 }
+
+AMEND = {
+    "C14": dict(
+        text_append="MIR->SMT part, full u128 width: the MIR of the real PositionImpactMarketExt::pending_position_impact_pool_distribution_amount (Num = u128, DECIMALS = 20) "
+                    "is executed for every pool amount, minimum, distribute factor (all u128) and every u64 duration, with utils::apply_factor and <u128 as MulDiv>::checked_mul_div "
+                    "inlined from their MIR: the call never fails and never panics, next = current - distributed <= current, current > min implies next >= min, nothing is "
+                    "distributed when the factor is zero or current <= min, and otherwise distributed = min(floor(t*rate/10^20), current - min) exactly.",
+        note_append="E2 part: abstract market (position_impact_pool_amount() and position_impact_distribution_params() return Ok(arbitrary values); their Err results are only propagated); "
+                    "trusted: rustc's MIR dump, the translator in /verif/mir2smt and its callee models, z3/cvc5.",
+        technique="Kani/CBMC symbolic execution of the real generic code at reduced width + MIR->SMT-LIB2 (z3, cvc5 cross-check) of the same function at full u128 width",
+        engine="kani+mir2smt"),
+}
